@@ -9,7 +9,8 @@ from . import mem
 from .absint import Val
 
 I32 = (-(1 << 31), (1 << 31) - 1)
-SIZE_MAX = (1 << 64) - 1
+from .facts import WORD as _W
+SIZE_MAX = (1 << (8 * _W)) - 1
 
 
 def rc_atom(name):
@@ -17,7 +18,9 @@ def rc_atom(name):
 
 
 class PortModel(object):
-    def __init__(self, mtu_ok=True, alloc_may_fail=True, word=8):
+    def __init__(self, mtu_ok=True, alloc_may_fail=True, word=None):
+        from .facts import WORD
+        word = word or WORD
         self.mtu_ok = mtu_ok
         self.alloc_may_fail = alloc_may_fail
         self.word = word
@@ -199,12 +202,44 @@ class PortModel(object):
         return out
 
     def p_memcmp(self, I, st, args, node, rty):
+        """libc semantics: 0 iff the n bytes are pairwise equal.  Modelled as two outcomes - equal (all byte pairs
+        unified, returns 0) and different (returns a non-zero value, no further knowledge)."""
         a, b, n = args
-        for s2, oid, off in I.targets(st, a.t):
-            I.check_access(s2, oid, off, n.t, node, 'memcmp')
-        for s2, oid, off in I.targets(st, b.t):
-            I.check_access(s2, oid, off, n.t, node, 'memcmp')
-        return [(st, Val(rty, ('sym', st.fresh('memcmp'), I32[0], I32[1])))]
+        out = []
+        nt = st.canon(n.t)
+        for s2, aoid, aoff in I.targets(st, a.t):
+            for s3, boid, boff in I.targets(s2, b.t):
+                if aoid is None or boid is None:
+                    I.oblige(False, 'null-deref', node, 'memcmp with NULL argument')
+                    continue
+                if not (I.check_access(s3, aoid, aoff, nt, node, 'memcmp') and I.check_access(s3, boid, boff, nt, node, 'memcmp')):
+                    continue
+                dn = s3.dom(nt)
+                if dn.const() is None or dn.const() > 256:
+                    out.append((s3, Val(rty, ('sym', s3.fresh('memcmp'), I32[0], I32[1]))))
+                    continue
+                cnt = int(dn.const())
+                xs = mem.load_bytes(s3, s3.objs[aoid], aoff, cnt)
+                ys = mem.load_bytes(s3, s3.objs[boid], boff, cnt)
+                eqs = s3.fork()
+                ok = True
+                for x, y in zip(xs, ys):
+                    if x == UNINIT or y == UNINIT:
+                        I.oblige(False, 'uninit-read', node, 'memcmp reads uninitialised bytes')
+                        ok = False
+                        break
+                    if not eqs.union(x, y):
+                        ok = False
+                        break
+                if ok:
+                    eqs.path = eqs.path + (('memcmp(%d bytes) == 0' % cnt, True),)
+                    out.append((eqs, Val(rty, ZERO)))
+                definitely_equal = all(s3.canon(x) == s3.canon(y) for x, y in zip(xs, ys))
+                if not definitely_equal:
+                    r = ('sym', s3.fresh('memcmp'), I32[0], I32[1])
+                    s3.env[r] = s3.dom(r).without(0)
+                    out.append((s3, Val(rty, r)))
+        return out
 
     # ---- effects
     def p_sleep_ms(self, I, st, args, node, rty):
